@@ -156,12 +156,21 @@ func vfc26Float(rng *rand.Rand) float64 {
 }
 
 func vfc26Spans(rng *rand.Rand) ([]writev2.BucketSpan, int) {
-	n := rng.Intn(3)
+	// 0..4 spans; about a quarter of them are empty (Length 0) - leading, in the middle or trailing - and keep
+	// their offset: the offset of an empty span still shifts every bucket that follows it
+	n := rng.Intn(5)
 	var out []writev2.BucketSpan
 	total := 0
 	for i := 0; i < n; i++ {
 		l := uint32(1 + rng.Intn(3))
-		out = append(out, writev2.BucketSpan{Offset: int32(rng.Intn(5)) - 1, Length: l})
+		if rng.Intn(4) == 0 {
+			l = 0
+		}
+		off := int32(rng.Intn(5))
+		if i == 0 {
+			off -= 2 // the first span may start at a negative bucket index
+		}
+		out = append(out, writev2.BucketSpan{Offset: off, Length: l})
 		total += int(l)
 	}
 	return out, total
@@ -677,6 +686,9 @@ func TestVF_C26(t *testing.T) {
 		t.Fatalf("hashring: %v", err)
 	}
 	h.Hashring(ring)
+
+	// directed part: replica writes still pending when the request was acknowledged (see vf_c26_pending_test.go)
+	vfc26Pending(t, r, r.N(400, 20000))
 
 	for ci := 0; ci < n; ci++ {
 		if !r.Want(ci) {
